@@ -29,6 +29,12 @@ M = [
  ('N7 Witness skips a witness point when ANY component of its best vector is already present in U[a] (sameValues too weak: entries are lost, links intact)',
   'include/AIToolbox/POMDP/Algorithms/Witness.hpp',
   "return e.values == best.values;", "return e.values[0] == best.values[0];"),
+ ('N8 QMDP::fromQFunction stores the Q column of the mirrored action under tag a (was masked by the open QMDP finding until the VI-horizon-1 regime got its own kind)',
+  'src/POMDP/Algorithms/QMDP.cpp',
+  "w.emplace_back(qfun.col(a), a, VObs(O, 0u));", "w.emplace_back(qfun.col(A-1-a), a, VObs(O, 0u));"),
+ ('N9 property-preserving: IncrementalPruning skips the final prune of a timestep (the list is no longer parsimonious; every entry still a plan)',
+  'include/AIToolbox/POMDP/Algorithms/IncrementalPruning.hpp',
+  "            w.erase(prune(begin, end, unwrap), end);\n\n            v.emplace_back(std::move(w));", "            (void)begin; (void)end;\n\n            v.emplace_back(std::move(w));"),
 ]
 sel = sys.argv[1:]
 for name, f, a, b in M:
